@@ -10,7 +10,7 @@ def gen_c20(rnd):
     alpha = rnd.sample(list("あいうえかきくけこさしたちつてとなにのはまもやよらりるれわん"), 5)
     def rd(n):
         return "".join(rnd.choice(alpha) for _ in range(rnd.randint(1, n)))
-    std = [{"reading": rd(3), "stem": "".join(rnd.choice(KANJI) for _ in range(rnd.randint(1, 2))), "speech": rnd.choice([{"Noun": "Common"}, {"Noun": "Proper"}, {"Noun": "Sahen"}, {"Verb": {"Godan": "カ"}}, "Adverb", "Adverb", "Verbatim", "PreNounAdjectival", "Conjunction"])} for _ in range(rnd.randint(2, 6))]
+    std = [{"reading": rd(3), "stem": "".join(rnd.choice(KANJI) for _ in range(rnd.randint(1, 2))), "speech": rnd.choice([{"Noun": "Common"}, {"Noun": "Proper"}, {"Noun": "Sahen"}, "Adverb", "Adverb", "Verbatim", "PreNounAdjectival", "Conjunction"])} for _ in range(rnd.randint(2, 6))]
     pre = [{"reading": rd(2), "stem": rnd.choice(KANJI), "speech": {"Affix": "Prefix"}} for _ in range(rnd.randint(1, 2))]
     suf = [{"reading": rd(2), "stem": rnd.choice(KANJI), "speech": {"Affix": "Suffix"}} for _ in range(rnd.randint(1, 2))]
     if rnd.random() < 0.5:
@@ -20,7 +20,8 @@ def gen_c20(rnd):
     par = [{"reading": rd(1), "stem": "は", "speech": {"Particle": "Adverbial"}}]
     base = {"std": std, "anc": pre + suf + par, "tankan": []}
     reqs, plan = [], []
-    # the word joined to the affix is any independent word, not only a noun (entries that conjugate are left to C07/C12)
+    # the word joined to the affix is any independent word, not only a noun.  Entries that conjugate are kept out of these dictionaries:
+    # chokan-dic expands them into their forms, the library pass (which tells which candidate has which parts) does not
     nouns = [w for w in std if w["speech"] in NONCONJ] or std
     for _ in range(rnd.randint(2, 4)):
         w = rnd.choice(nouns)
